@@ -54,7 +54,7 @@ func runC02(c *Ctx) {
 		maxN = 7
 	}
 	c.Exhaustive = true
-	c.Rule = fmt.Sprintf("every vector in ({matched,unmatched} x {allow,deny,other})^n for 1 <= n <= %d and each of the 5 effect expressions, driven through the real Enforce/EnforceEx/BatchEnforce on a model whose matcher is r.sub == p.sub (exhaustive), each followed (n <= 4) on the same enforcer by EnforceWithMatcher / EnforceExWithMatcher / BatchEnforceWithMatcher with a custom matcher that selects one rule by its object; n = 0 (empty policy, also after the last rule was removed) for each effect; every ordered pair of distinct effects as e / e2 with the request made through EnforceContext (e2 must decide; both as a struct literal over r/p/m and as NewEnforceContext(\"2\") over a complete second set r2/p2/e2/m2), vectors of length <= 2; every vector of length <= 3 again on a policy definition whose effect column comes first, and with a matcher function that itself calls Enforce for another subject (the outer decision and explanation must not change); every direct MergeEffects call on arrays of length <= 3 at every index; non-trivial = at least one matched rule; distinct = (effect, vector)", maxN)
+	c.Rule = fmt.Sprintf("every vector in ({matched,unmatched} x {allow,deny,other})^n for 1 <= n <= %d and each of the 5 effect expressions, driven through the real Enforce/EnforceEx/BatchEnforce on a model whose matcher is r.sub == p.sub (exhaustive), each followed (n <= 4) on the same enforcer by EnforceWithMatcher / EnforceExWithMatcher / BatchEnforceWithMatcher with a custom matcher that selects one rule by its object; n = 0 (empty policy, also after the last rule was removed) for each effect; every ordered pair of distinct effects as e / e2 with the request made through EnforceContext (e2 must decide; both as a struct literal over r/p/m and as NewEnforceContext(\"2\") over a complete second set r2/p2/e2/m2), vectors of length <= 2; every vector of length <= 3 again on a policy definition whose effect column comes first, and with a matcher function that itself calls Enforce for another subject (the outer decision and explanation must not change); every direct MergeEffects call on arrays of length <= 3 at every index; for n <= 5 and the three order-insensitive effects all orderings of one multiset of cells must give one decision; rule effects other than allow / deny (other, empty, Allow, DENY) are cells of the vectors; an unsupported effect expression must fail closed in MergeEffects; non-trivial = at least one matched rule; distinct = (effect, vector)", maxN)
 
 	for _, k := range effectKinds {
 		e, err := casbin.NewEnforcer(c02Model(k.expr))
